@@ -55,6 +55,8 @@ Shape(i, s, o1, o2) ==
     [] i = 29 -> [rw |-> Di(TTU(o1, "p"), TTU("a", "p")), restr |-> <<>>]
     [] i = 30 -> [rw |-> In(<<Un(<<CU(o1), In(<<CU(o2), This>>)>>), Un(<<CU(o2), In(<<CU(o1), This>>)>>)>>),  \* three operators deep:
                   restr |-> <<Ty("user")>>]                                                     \* same kind, same depth, same position
+    [] i = 31 -> [rw |-> Un(<<This, TTU("a", o1)>>), restr |-> <<Ty("user")>>]                  \* a free relation as tupleset: without type restrictions
+    [] i = 32 -> [rw |-> Di(This, TTU("a", o1)), restr |-> <<Ty("user")>>]                      \* when it is a rewrite (shapes 6, 9, 18, 28, 29)
     [] i = 23 -> [rw |-> Un(<<TTU("a", "q"), This>>), restr |-> <<TyC("user", "c"), Ty("user"), Wi("user")>>]
 
 FreeNames == IF NFree = 2 THEN <<"x", "y">> ELSE <<"x", "y", "z">>
